@@ -136,8 +136,9 @@ class DataFrame:
         if isinstance(self._schema, RelationSchema):
             self._schema.validate(entry)
         new_row = self._row_factory(entry)
+        new_row_size = new_row.nbytes()
         self._rows.append(new_row)
-        self._nbytes += new_row.nbytes()
+        self._nbytes = (self._nbytes or 0) + new_row_size
         self._cursor = None
 
     def head(self, size: int = 5) -> "DataFrame":
